@@ -111,6 +111,22 @@ def explore(ctx, fn, n, mode, kind, faults=1, loop_limit=None, preheld=None, add
             st.locks["%s.[%d].*" % (LID, k)] = preheld
     try:
         paths = I.analyze(fn, args, st)
+        # a try operation that hands the outcome of a member's try straight back (`return lock.raw_try_write()`): the two
+        # outcomes are two paths
+        from interp import Path
+        split = []
+        for p in paths:
+            v = p.value
+            if p.kind == "ret" and v is not None and v[0] == "op" and not isinstance(p.facts.get(v[1]), bool) and \
+                    fn["output"].get("name") == "bool":
+                try:
+                    for b, s2 in I.fork_bool(p.st, v):
+                        split.append(Path("ret", ("const", b), s2, p.note))
+                    continue
+                except Undecided:
+                    pass
+            split.append(p)
+        paths = split
         res = (paths, None)
     except Undecided as e:
         res = (None, str(e))
